@@ -65,6 +65,9 @@ class Parser:
         self._error_output = ''
         self._load_runtime()
         self._tokens = Lex(input_string).tokens()
+        # Forget where the previous parse ended: at EOF, next_token() would
+        # not advance and this text would be taken for an empty program.
+        self._current_token = Token(TokenTypes.UNKNOWN)
         self.next_token()
         return self._script()
 
